@@ -179,6 +179,13 @@ fn run_cli(tuc: &str, shim: Option<&str>, c: &Case, timeout: Duration) -> (Strin
 }
 
 // ---------------------------------------------------------------- lib channel
+// Built only with the cargo feature "lib" (the default).  When the library API of the code
+// under test changes so that this part no longer compiles, the check falls back to a CLI-only
+// harness (no feature) so that it can still look for a failing input through the binary.
+
+#[cfg(feature = "lib")]
+mod lib_mode {
+use super::*;
 
 use std::convert::TryFrom;
 use std::str::FromStr;
@@ -294,6 +301,9 @@ fn opt_of_argv(argv: &[Vec<u8>]) -> Result<Opt, String> {
         trim,
         fallback_oob: fallback,
         regex_bag,
+        // fields the harness does not know about (added by a later change to the code under
+        // test) take their default, so that such a change does not break the build
+        ..Opt::default()
     })
 }
 
@@ -353,7 +363,7 @@ fn side_str(s: &Side) -> String {
     }
 }
 
-fn run_lib(c: &Case) -> (String, Vec<u8>) {
+pub fn run_lib(c: &Case) -> (String, Vec<u8>) {
     let c2 = c.clone();
     let res = std::panic::catch_unwind(move || -> (String, Vec<u8>) {
         let c = c2;
@@ -421,6 +431,17 @@ fn run_lib(c: &Case) -> (String, Vec<u8>) {
         Err(_) => ("panic".into(), vec![]),
     }
 }
+
+}
+
+#[cfg(not(feature = "lib"))]
+mod lib_mode {
+    use super::*;
+    pub fn run_lib(_c: &Case) -> (String, Vec<u8>) {
+        ("skipped".to_string(), vec![])
+    }
+}
+use lib_mode::run_lib;
 
 fn main() {
     let args: Vec<String> = std::env::args().collect();
